@@ -41,7 +41,43 @@ def catalog(tier="quick"):
         "Sokoban": lambda: _sokoban(time_limit=tl),
         "TSP": lambda: E.TSP(),
     }
+    # stacked wrappers: the functional wrappers must treat a WRAPPED environment like any other environment (their
+    # reset/step are the wrapped object's, not the innermost raw environment's)
+    c["Snake.KeyFolded"] = lambda: _key_folded(E.Snake(num_rows=4, num_cols=5, time_limit=tl))
+    c["Maze.ObsShifted"] = lambda: _obs_shifted(E.Maze(time_limit=tl))
     return c
+
+
+def _key_folded(env):
+    """A user wrapper whose reset differs from the raw reset: it folds a constant into the key first."""
+    import jax
+
+    from jumanji.wrappers import Wrapper
+
+    class KeyFolded(Wrapper):
+        def reset(self, key):
+            return self._env.reset(jax.random.fold_in(key, 12345))
+
+    return KeyFolded(env)
+
+
+def _obs_shifted(env):
+    """A user wrapper that transforms the observation of reset AND step (step_count shifted by 100)."""
+    from jumanji.wrappers import Wrapper
+
+    class ObsShifted(Wrapper):
+        def _tf(self, ts):
+            return ts.replace(observation=ts.observation._replace(step_count=ts.observation.step_count + 100))
+
+        def reset(self, key):
+            s, ts = self._env.reset(key)
+            return s, self._tf(ts)
+
+        def step(self, state, action):
+            s, ts = self._env.step(state, action)
+            return s, self._tf(ts)
+
+    return ObsShifted(env)
 
 
 MULTI_AGENT = ("Connector", "LevelBasedForaging", "MMST", "MultiCVRP", "RobotWarehouse", "Cleaner")
